@@ -393,7 +393,11 @@ def vpl_expressible(e):
     if k in ("cmp", "log"):
         return vpl_expressible(e[2]) and vpl_expressible(e[3])
     if k == "not":
-        return e[1][0] != "not" and vpl_expressible(e[1])
+        # crates/varpulis-parser: `"not"? ~ comparison_expr` produces no token for the keyword and
+        # parse_not_expr / parse_filter_not_expr test `first.as_str() == "not"`, so the parser drops
+        # every `not` (in `.where(..)` and in `-> B where ..` alike). Text programs therefore cannot
+        # carry a negation at all; negations are exercised through the evaluator APIs only.
+        return False
     if k == "neg":
         # the parser folds `-<literal>`; only produced through text for literals
         return False
